@@ -30,7 +30,8 @@ FULL == 360000000
 FLATV == -1000000           \* aspect -1 in micro-degrees
 
 \* ------------------------------------------------------------------------------- kind "F"
-CellSizeOf(c) == Resolution(c.rk, c.rx, c.ry, c.xs, c.ys, c.cd, c.H, c.W)
+CellSizeOf(c) == LET cs == Resolution(c.rk, c.rx, c.ry, c.xs, c.ys, c.cd, c.H, c.W)
+                 IN <<RNorm(cs[1]), RNorm(cs[2])>>
 
 SlopeClause(c, g, cs, r, k) ==
   LET o == c.slope[r+1][k+1]
